@@ -694,7 +694,7 @@ class Parallel2dGeometry(ParallelBeamGeometry):
         dpart = part.byaxis[1]
 
         return Parallel2dGeometry(apart, dpart,
-                                  det_pos_init=self.det_pos_init,
+                                  det_pos_init=self._det_pos_init_arg,
                                   det_axis_init=self._det_axis_init_arg,
                                   translation=self.translation)
 
